@@ -802,6 +802,13 @@ theorem remove_ok {t : Tree} (inv : Inv t) {n : Id} (hn : t.live n) :
           show some l2 = some (l2.filter (fun f => f ≠ n))
           rw [filter_ne_of_not_mem this]
   obtain ⟨c1, sh1, g1, e1⟩ := hc1
+  -- `self.mark_dirty(parent)?`: the former parent is live
+  have hmd : markDirtyOpt ({ t with children := c1 } : Tree) o = true := by
+    cases o with
+    | none => rfl
+    | some p =>
+      obtain ⟨l, hl, _⟩ := (inv.parIff n p).mp ho
+      exact inv.live_of_kids hl
   have hln : c1.get n = some (ln0.filter (fun f => f ≠ n)) := by rw [g1, hln0]; rfl
   have hlive : ∀ c ∈ ln0.filter (fun f => f ≠ n), (t.parents.get c).isSome = true := by
     intro c hc
@@ -833,7 +840,7 @@ theorem remove_ok {t : Tree} (inv : Inv t) {n : Id} (hn : t.live n) :
             exact absurd (List.mem_filter.mpr ⟨h3, by simpa using e⟩) hx
           · rfl
   refine ⟨{ nodes := (t.nodes.remove n).1, children := (c1.remove n).1, parents := (pm.remove n).1, ctx := t.ctx }, ?_, ?_, gN, ?_, ?_⟩
-  · simp only [remove, ho, e1, hln, hs1]
+  · simp only [remove, ho, e1, hmd, ↓reduceIte, hln, hs1]
   · apply inv_remove_state inv wN
     · rw [shape_remove, shape_remove, sh1, inv.shC]
     · rw [shape_remove, shape_remove, hs2, inv.shP]
